@@ -2,6 +2,7 @@
 package main
 
 import (
+	"errors"
 	"fmt"
 	"sort"
 	"strings"
@@ -20,16 +21,25 @@ type crashSentinel struct{}
 // crashKV stops the "process" before or after the k-th store call of the current operation.
 type crashKV struct {
 	kvstore.KVStore
-	calls int
-	at    int
-	after bool
-	fired bool
+	calls  int
+	at     int
+	after  bool
+	fired  bool
+	failAt int // this store call of the current operation returns errInjected instead of being performed
 }
 
-func (c *crashKV) arm(at int, after bool) { c.calls, c.at, c.after, c.fired = 0, at, after, false }
+var errInjected = errors.New("injected store failure")
+
+func (c *crashKV) arm(at int, after bool) {
+	c.calls, c.at, c.after, c.fired, c.failAt = 0, at, after, false, 0
+}
 
 func (c *crashKV) Get(k kvstore.Key) (kvstore.Value, error) {
 	c.calls++
+	if c.failAt == c.calls {
+		c.fired = true
+		return nil, errInjected
+	}
 	if c.at == c.calls {
 		c.fired = true
 		if !c.after {
@@ -43,6 +53,10 @@ func (c *crashKV) Get(k kvstore.Key) (kvstore.Value, error) {
 
 func (c *crashKV) Set(k kvstore.Key, v kvstore.Value) error {
 	c.calls++
+	if c.failAt == c.calls {
+		c.fired = true
+		return errInjected
+	}
 	if c.at == c.calls {
 		c.fired = true
 		if !c.after {
@@ -59,6 +73,7 @@ type sop struct {
 	interval uint64
 	crashAt  int
 	after    bool
+	failAt   int
 	name     string
 }
 
@@ -77,6 +92,11 @@ func alphabet() []sop {
 		}
 		ops = append(ops, sop{kind: "release", crashAt: 1, after: after, name: fmt.Sprintf("Release!crash-%s-store-call-1", w)})
 	}
+	// the store fails (returns an error) instead of the process stopping: the object stays in use
+	for k := 1; k <= 2; k++ {
+		ops = append(ops, sop{kind: "next", failAt: k, name: fmt.Sprintf("Next!fail-store-call-%d", k)})
+	}
+	ops = append(ops, sop{kind: "release", failAt: 1, name: "Release!fail-store-call-1"})
 	return ops
 }
 
@@ -149,13 +169,24 @@ func (in *inst) Apply(i int) string {
 		return ""
 	case "next":
 		in.store.arm(o.crashAt, o.after)
+		in.store.failAt = o.failAt
 		var n uint64
 		var err error
 		crashed := run(func() { n, err = in.seq.Next() })
+		failed := in.store.fired && o.failAt != 0
 		in.store.arm(0, false)
 		if crashed {
 			in.crashed = true
 			in.released = false
+			return ""
+		}
+		if failed {
+			if err == nil {
+				return fmt.Sprintf("%s|store-error-swallowed: the store call failed but Next returned %d without an error", cls, n)
+			}
+			// no number was handed out; the statement bounds the waste of crashes only, so a failed lease may cost one interval
+			in.released = false
+			in.budget += in.interval
 			return ""
 		}
 		if err != nil {
@@ -175,10 +206,19 @@ func (in *inst) Apply(i int) string {
 		in.last, in.budget = int64(n), 0
 	case "release":
 		in.store.arm(o.crashAt, o.after)
+		in.store.failAt = o.failAt
 		var err error
 		crashed := run(func() { err = in.seq.Release() })
 		fired, after := in.store.fired, o.after
+		failed := in.store.fired && o.failAt != 0
 		in.store.arm(0, false)
+		if failed {
+			if err == nil {
+				return fmt.Sprintf("%s|store-error-swallowed: the store call failed but Release returned no error", cls)
+			}
+			in.released = false
+			return ""
+		}
 		if crashed {
 			in.crashed = true
 			in.released = fired && after // the store write happened: as good as a clean release
@@ -268,8 +308,8 @@ func main() {
 	cli.Main(&cli.Property{
 		ID: "C07", Level: "fault_enumeration", Scenarios: scenarios(), Parts: []*cli.Part{part},
 		QuickBound: 2, ThoroughBound: 3, QuickUnbounded: true, ThoroughUnbounded: true, Cache: true, QuickSecs: 45, ThoroughSecs: 600,
-		Rule:        "H: every history up to depth 7 (thorough 8) over Next, Release, Restart(interval 1..3) in which every Next/Release is additionally run with the process stopping before or after its 1st/2nd store call (the object is then abandoned and only Restart is possible); oracle: returned numbers strictly increase over the life of the store and the gap between consecutive numbers is at most the sum of the intervals of the objects crashed/abandoned without Release in between (0 after clean Releases). S: all interleavings of 2-3 threads x 2 Next calls on one Sequence; distinct = distinct histories / observation logs",
+		Rule:        "H: every history up to depth 7 (thorough 8) over Next, Release, Restart(interval 1..3) in which every Next/Release is additionally run with the process stopping before or after its 1st/2nd store call (the object is then abandoned and only Restart is possible) and with its 1st/2nd store call failing (the object stays in use); oracle: returned numbers strictly increase over the life of the store and the gap between consecutive numbers is at most the sum of the intervals of the objects crashed/abandoned without Release in between (0 after clean Releases). S: all interleavings of 2-3 threads x 2 Next calls on one Sequence; distinct = distinct histories / observation logs",
 		Assumptions: []string{"one live Sequence object per key at a time; an abandoned object is never used again", "store calls do not fail other than by the process stopping"},
-		NotReached:  []string{"intervals above 3", "store errors (as opposed to crashes)"},
+		NotReached:  []string{"intervals above 3"},
 	})
 }
